@@ -175,7 +175,7 @@ func init() {
 			Level: "exploration",
 			Rule: "every descriptor list of length ≤ maxLen over {close-marker, caller fds 0,1,2, four reserved low fds, two high fds} × ExecFile ∈ {none, a low number, a high number} × " +
 				"placement of the internal socketpair ∈ {two lowest reserved numbers freed so that it lands inside 0..n, just above the reserved block} × {vfork, non-vfork (sync callback)}; " +
-				"each configuration is started twice from one Runner value; the program reports its whole descriptor table; plus container.Execve with Files/ExecFile lists. " +
+				"each configuration is started twice from one Runner value; the program reports its whole descriptor table; plus container.Execve with Files/ExecFile lists; plus containers built while the building process holds one or two inheritable descriptors (every 1- and 2-subset of six numbers chosen for their position in numeric and in name order), programs run twice in each. " +
 				"non-trivial: the list is not the identity mapping 0..n-1; distinct = (list, exec, gap, vfork, observed table shape)",
 			Bound:       map[string]any{"max_len": maxLen},
 			Assumptions: []string{"identity of an open file = (st_dev, st_ino) seen by fstat on both sides", "all descriptors of the launching process are close-on-exec (set by the harness), so any extra descriptor in the program was put there by the library"},
@@ -193,12 +193,15 @@ func init() {
 		}
 		spec.Fini = func() { c09pool.drop(); cleanupTmp() }
 		spec.Body = func(x *mc.X) {
-			switch x.Choose(3, "family") {
+			switch x.Choose(4, "family") {
 			case 1:
 				c06container(x)
 				return
 			case 2:
 				c06long(x)
+				return
+			case 3:
+				c06inherited(x)
 				return
 			}
 			L := c06L
@@ -533,4 +536,84 @@ func c06long(x *mc.X) {
 	shapeS := c06judge(x, rep, exp, n, ctx, 1)
 	x.Distinct(fmt.Sprint("long", shape, delta, vfork, withExec, shapeS))
 	x.Outcome("long:" + shapeClass(shapeS))
+}
+
+// c06inherited: the process that builds the container holds inheritable descriptors (a careless parent, a dup); the
+// container init inherits them, and the programs it launches must still see exactly their list. Numbers are chosen by
+// their place in numeric order and in the order of their decimal names ("10" < "9").
+func c06inherited(x *mc.X) {
+	L := c06L
+	cand := []int{}
+	for _, fd := range []int{8, 9, 10, 13, 14, 40} {
+		cand = append(cand, fd)
+	}
+	a := x.Choose(len(cand), "stray-a")
+	b := x.Choose(len(cand)+1, "stray-b") // len(cand): none
+	n := []int{0, 3}[x.Choose(2, "len")]
+	if x.Dry() {
+		return
+	}
+	if b < len(cand) && b <= a {
+		x.Outcome("n/a:unordered-pair")
+		return
+	}
+	strays := []int{cand[a]}
+	if b < len(cand) {
+		strays = append(strays, cand[b])
+	}
+	for _, fd := range strays {
+		if _, ok := L.files[fd]; !ok {
+			x.Outcome("n/a:number-owned-by-runtime")
+			return
+		}
+	}
+	x.Note("family", "container-inherited")
+	x.Note("inheritable-in-builder", strays)
+	for _, fd := range strays {
+		unix.FcntlInt(uintptr(fd), unix.F_SETFD, 0)
+	}
+	c, err := newContainer(nil)
+	for _, fd := range strays {
+		unix.FcntlInt(uintptr(fd), unix.F_SETFD, unix.FD_CLOEXEC)
+	}
+	if err != nil {
+		x.Failf("C06/harness", "container: %v", err)
+		return
+	}
+	defer c.Destroy()
+	list := make([]uintptr, n)
+	exp := make([]*ident, n)
+	for i := range list {
+		list[i] = uintptr(i)
+		id, _ := fdIdent(i)
+		exp[i] = &id
+	}
+	shapes := ""
+	for round := 0; round < 2; round++ {
+		p := execveParam([]string{"/probe/report", "--outfile=/w/r.json"})
+		p.Files = list
+		c.Delete("/w/r.json")
+		ctx, cancel := context.WithTimeout(context.Background(), 30*time.Second)
+		res := c.Execve(ctx, p)
+		cancel()
+		if res.Status != runner.StatusNormal {
+			x.Failf("C06/container-run-failed", "builder held %v inheritable: %v %s", strays, res.Status, res.Error)
+			return
+		}
+		fr, err := c.Open([]container.OpenCmd{{Path: "/w/r.json", Flag: os.O_RDONLY}})
+		if err != nil || len(fr) != 1 || fr[0].Err != nil {
+			x.Failf("C06/container-no-report", "cannot open report: %v %v", err, fr)
+			return
+		}
+		var rep report
+		err = json.NewDecoder(fr[0].File).Decode(&rep)
+		fr[0].File.Close()
+		if err != nil {
+			x.Failf("C06/container-no-report", "bad report: %v", err)
+			return
+		}
+		shapes += c06judge(x, &rep, exp, n, fmt.Sprintf("container built while descriptors %v were inheritable, list %s, run %d", strays, fmtList(list), round+1), 1) + "/"
+	}
+	x.Distinct(fmt.Sprint("ci", strays, n, shapes))
+	x.Outcome(fmt.Sprintf("container-inherited:len=%d:%s", n, shapeClass(shapes)))
 }
